@@ -1008,6 +1008,10 @@ def _simplify_function_call(call: HplFunctionCall) -> HplExpression:
     return call
 
 
+# largest number of integers in a constant range that `sum` and `prod` enumerate
+_MAX_FOLDED_RANGE: int = 100000
+
+
 def _simplify_function_sum(call: HplFunctionCall) -> HplExpression:
     arg: HplExpression = _simplify(call.arguments[0])
     if isinstance(arg, HplSet):
@@ -1030,6 +1034,8 @@ def _simplify_function_sum(call: HplFunctionCall) -> HplExpression:
             n = 0
             lb = int(arg.min_value.value) + (1 if arg.exclude_min else 0)
             ub = int(arg.max_value.value) + (0 if arg.exclude_max else 1)
+            if ub - lb > _MAX_FOLDED_RANGE:
+                return call  # leave it unfolded, adding that many numbers would not finish
             for i in range(lb, ub):
                 n += i
             return HplLiteral.number(n)
@@ -1062,8 +1068,14 @@ def _simplify_function_prod(call: HplFunctionCall) -> HplExpression:
             n = 1
             lb = int(arg.min_value.value) + (1 if arg.exclude_min else 0)
             ub = int(arg.max_value.value) + (0 if arg.exclude_max else 1)
+            if lb <= 0 < ub:
+                return HplLiteral.number(0)
+            if ub - lb > _MAX_FOLDED_RANGE:
+                return call  # leave it unfolded
             for i in range(lb, ub):
                 n *= i
+                if n.bit_length() > 4096:
+                    return call  # astronomically large, leave it unfolded
             return HplLiteral.number(n)
     return call
 
